@@ -366,6 +366,7 @@ int_t NewNsuper(const int_t pnum, pxgstrf_shared_t *pxgstrf_shared, int_t *data)
     Gstat->procstat[pnum].cs_time += SuperLU_timer_() - t;
 #endif
 	
+    SLU_MT_VERIF_EVENT(8, pnum, i, 0, 0);
     return i;
 }
 
